@@ -28,7 +28,8 @@ LEVEL_TEXT = ("held on N generated histories (capacity 1-8, periods 0.5/1/2/60 s
               "0.3, 0.49, 0.5 period / None and NaN values) with ~14 queries after each update (aligned, unaligned and "
               "closer-than-one-period datetimes; negative, None and out-of-range indices; single-slot reads).")
 LEVEL_NOTE = ("unaligned datetime queries: any of floor/ceil rounding of each end is accepted for *which* slots, the "
-              "content must be the model's and the length at most ceil(span)+1; reference slot = round-half-even")
+              "content must be the model's and the length at most ceil(span)+1; reference slot = round-half-even"
+              ' Build phase: MovingWindow fed the whole history incl. samples older than the window; time zones / DST; deepcopy and dump/load at any point; infinite values.')
 RULE = ("seeded histories of 1-40 updates x queries; distinct = canonical history JSON; non-trivial = >=5 accepted "
         "updates and (a gap or an eviction or an out-of-order update occurred)")
 REQUIRED_BUCKETS = ["infinite-value-written", "moving-window-fed-a-sample-older-than-its-window", "container:list", "container:numpy", "update-rejected-too-old", "update-out-of-order",
